@@ -262,6 +262,42 @@ def _two_pol_guarded(n):
     return False
 
 
+def _vanishes_only_with_field(P, depth=0):
+    """P >= 0 by construction and P == 0 only if every sample of the field is 0: a positive constant times nested max / sum / mean
+    reductions of |field|**k"""
+    if not isinstance(P, Form) or depth > 6 or len(P.terms) != 1:
+        return False
+    (m, c), = P.terms.items()
+    if c[1] != 0 or c[0] <= 0 or len(m) != 1:
+        return False
+    a, e = m[0]
+    if not (e > 0 and a[0] == "fn" and len(a[2]) == 1):
+        return False
+    if a[1] in ("max", "amax", "sum", "mean", "nanmax"):
+        return _vanishes_only_with_field(a[2][0], depth + 1)
+    if a[1] in ("abs", "absolute"):
+        x = a[2][0]
+        while isinstance(x, Form) and x.single_atom() and x.single_atom()[0] == "fn" and x.single_atom()[1] in ("atleast_2d", "atleast_1d", "asarray") and len(x.single_atom()[2]) == 1:
+            x = x.single_atom()[2][0]
+        return isinstance(x, Form) and x.sym_name() is not None
+    return False
+
+
+def _on_nonzero_field(h):
+    """the step as chosen for a field that is not identically zero: a branch taken only when the peak power is 0 is dropped (on
+    a zero field every step size is exact - the output is zero)"""
+    for _ in range(4):
+        a = h.single_atom() if isinstance(h, Form) else None
+        if not (a and a[0] == "fn" and a[1] == "ifexp" and len(a[2]) == 3):
+            break
+        c = a[2][0].single_atom() if isinstance(a[2][0], Form) else None
+        if not (c and c[0] == "fn" and c[1] in ("gt", "ne", "le", "eq") and len(c[2]) == 2 and isinstance(c[2][1], Form) and c[2][1] == Form.num(0)
+                and _vanishes_only_with_field(c[2][0])):
+            break
+        h = a[2][1] if c[1] in ("gt", "ne") else a[2][2]
+    return h
+
+
 def rule_shortcut(ctx, fi, it):
     """The pre-loop shortcut takes one step of the whole length.  The parameters are only compared with 0, so each has two
     order classes (zero / non-zero): all 16 combinations of (alpha, beta_2, beta_3, gamma) are evaluated abstractly and the
@@ -294,6 +330,7 @@ def rule_shortcut(ctx, fi, it):
         if h0 is None:
             ctx.unknown("C08.4", fi, fi.node, "FIBER single-step shortcut", "initial step assignment not found")
             return
+        h0 = _on_nonzero_field(h0)
         zero = dict(zip(names, (c == 0 for c in combo)))
         exact = zero["gamma"] or (zero["alpha"] and zero["beta_2"] and zero["beta_3"])
         if isinstance(h0, Form) and h0 == S(length):
